@@ -844,7 +844,7 @@ const BACKENDS: [&str; 7] = ["mem", "file", "sqlite", "sqlitefile", "layered", "
 fn generate(tier: &str, out: &str) -> i32 {
     let seed = seed_from_env();
     let u = universe();
-    let (per_backend, max_ops) = if tier == "thorough" { (1500u64, 300usize) } else { (260u64, 40usize) };
+    let (per_backend, max_ops) = if tier == "thorough" { (4000u64, 300usize) } else { (1000u64, 40usize) };
     let f = std::fs::File::create(out).expect("create");
     let mut w = BufWriter::new(f);
     for (bi, b) in BACKENDS.iter().enumerate() {
